@@ -103,6 +103,34 @@ def check(ctx, F, cfg, P="C17", clauses="all"):
     return len(m.paths)
 
 
+def forwards_own_payload(F, en):
+    """the hand-written Serialize impl of the one-field-per-variant enum `en` does, for every variant, exactly
+    `<the variant's own field>.serialize(<the serializer argument>)` and returns its result"""
+    cache = F.__dict__.setdefault("_forwards_own_payload", {})
+    if en in cache:
+        return cache[en]
+    ok = False
+    fns = F.impl_fn("serde_core::ser::Serialize", en, "serialize")
+    adt = F.adt(en)
+    if len(fns) == 1 and adt is not None and all(len(v["fields"]) == 1 for v in adt["variants"]):
+        fn = fns[0]
+        names = [n for p in fn["params"] for n, _ in H.pat_bindings(p)]
+        ok = True
+        for v in adt["variants"]:
+            probe = ("unk", -7, "payload")
+            sy = S.Sym(F, fn, is_effect=lambda c, a, n, st: (n.get("callee") or "").startswith("serde_core::ser::") if isinstance(n, dict) else False,
+                       param_terms={names[0]: ("ctor", en + "::" + v["name"], (probe,))})
+            try:
+                ps = sy.run()
+            except S.TooManyPaths:
+                ps = []
+            if not (len(ps) == 1 and len(ps[0].effects) == 1 and ps[0].effects[0].tcallee == "serde_core::ser::Serialize::serialize"
+                    and tuple(ps[0].effects[0].args) == (probe, ("param", names[1])) and ps[0].result == ps[0].effects[0].term):
+                ok = False
+    cache[en] = ok
+    return ok
+
+
 def payload(ctx, F, cfg, spec, P="C17"):
     """body wiring per response variant: on every path of a data-bearing variant the body is cbor_serialize(<its own payload>, <tail>),
     a parameter-less one never calls the encoder -- in every configuration in which the variant exists"""
@@ -123,8 +151,23 @@ def payload(ctx, F, cfg, spec, P="C17"):
             ctx.oblige(key, all(not v.encoders and v.kind == "ok-empty" for v in vs), "parameter-less response %s no longer has an empty body" % name, cfg=cfg, where=m.fn["sp"])
         else:
             pay = ("proj", R.ME, "ctap2::Response::" + name, 0)
-            good = all(v.enc is not None and v.enc.args[0] == pay for v in vs)
-            tys = sorted({erase_lt((v.enc.node.get("targs") or [""])[0]) for v in vs if v.enc is not None})
+
+            def encoded(v):
+                """(value term, its type) handed to the encoder; a borrowed *view* enum whose hand-written Serialize forwards every
+                variant's payload to the same serializer (an untagged enum) stands for the payload it wraps"""
+                t = v.enc.args[0]
+                ty = erase_lt((v.enc.node.get("targs") or [""])[0])
+                if t[0] == "ctor" and len(t[2]) == 1:
+                    en, _, var = t[1].rpartition("::")
+                    adt = F.adt(en)
+                    from . import c03
+                    if adt is not None and adt.get("local") and adt["kind"] == "enum" and c03.classify_ser(F, en)[0] == "untagged" and forwards_own_payload(F, en):
+                        fty = next((f["ty"]["s"] for x in adt["variants"] if x["name"] == var for f in x["fields"]), "")
+                        return t[2][0], erase_lt(fty).lstrip("&").strip()
+                return t, ty
+
+            good = all(v.enc is not None and encoded(v)[0] == pay for v in vs)
+            tys = sorted({encoded(v)[1] for v in vs if v.enc is not None})
             ctx.oblige(key, good and tys == [want], "response %s is encoded from %s (%s), expected its own payload of type %s" % (name, sorted({S.show(v.enc.args[0]) if v.enc is not None else "nothing" for v in vs}), tys, want), cfg=cfg, where=m.fn["sp"])
     for name in spec["response_variants"]:
         ctx.oblige("%s|frame|variant|%s" % (P, name), name in seen, "Response::%s has no path in Response::serialize" % name, cfg=cfg, nontrivial=False)
